@@ -98,9 +98,9 @@ PAIRS = [
     (EvA, EvB),      # 0 plain connectivity / reachability / dead ends
     (AskEv, AnsEv),  # 1 HITL through subclasses (what users write)
     (IRE, HRE),      # 2 HITL through the base classes
-    (EvA, AskEv),    # 3
+    (MyStart, MyStop),  # 3 start/stop multiplicity, StopEvent / StartEvent SUBCLASSES produced and consumed (quick tier too)
     (EvA, AnsEv),    # 4
-    (MyStart, MyStop),  # 5 start/stop multiplicity
+    (EvA, AskEv),    # 5
     (AskEv, HRE),    # 6
     (IRE, AnsEv),    # 7
 ]
@@ -115,7 +115,7 @@ TRIPLES = [
     (AskEv, AnsEv, HRE),
     (EvA, EvB, MyStop),
 ]
-NPAIRS = B(3, len(PAIRS))   # quick uses pairs 0..2 ; thorough all
+NPAIRS = B(4, len(PAIRS))   # quick uses pairs 0..3 ; thorough all
 
 
 # --------------------------------------------------------------------------------------------------------------
@@ -335,14 +335,14 @@ def _mk_skips(w0, w1, w2, ks):
 
 
 _P2Q = ["pair == 0 and a0 == 0 and a1 <= 1", "pair == 0 and a0 == 0 and a1 >= 2", "pair == 1 and a0 == 0", "pair == 2 and a0 == 0 and a1 <= 1", "pair == 2 and a0 == 0 and a1 >= 2",
-        "a0 >= 1"]
+        "pair == 3 and a0 == 0 and a1 <= 1", "pair == 3 and a0 == 0 and a1 >= 2", "a0 >= 1"]
 _P2T = [f"pair == {p} and a0 {c}" for p in range(len(PAIRS)) for c in ("== 0", ">= 1")]
 
 
 @obligation(quick=200, thorough=600, partitions_quick=_P2Q, partitions_thorough=_P2T,
             what="2 steps x [Start, Stop, X, Y]: accept/reject agrees with the reference; returned HITL flag = "
                  "(InputRequiredEvent (sub)class produced or HumanResponseEvent (sub)class consumed)",
-            bounds={"steps": 2, "columns": 4, "slot pairs": "0..NPAIRS-1 (3 quick / 8 thorough)",
+            bounds={"steps": 2, "columns": 4, "slot pairs": "0..NPAIRS-1 (4 quick / 8 thorough)",
                     "accepts": "one column per step", "returns": "any subset of the columns",
                     "skips": "3 workflow-level bits",
                     "quick": "s0 accepts StartEvent, or nobody does and s1 returns nothing; terminal_event/dead_end skips only "
@@ -359,7 +359,7 @@ def ob_graph2(pair: int, a0: int, a1: int, r00: bool, r01: bool, r02: bool, r03:
 
 
 @obligation(quick=200, thorough=600, partitions_quick=["pair == 1 and a1 <= 1", "pair == 1 and a1 >= 2"],
-            partitions_thorough=[f"pair == {p}" for p in (1, 3, 4, 6, 7)],
+            partitions_thorough=[f"pair == {p}" for p in (1, 5, 4, 6, 7)],
             what="accept/reject agreement on the inputs that the known HITL-flag finding excludes from ob_graph2 "
                  "(so the class is still searched for every other disagreement)",
             bounds={"class": "sub_only2(...)"})
@@ -486,7 +486,7 @@ def ob_graph2_union(pair: int, a0: int, a1: int, u1: int, r00: bool, r01: bool, 
     return _agree(steps, _mk_skips(w0, w1, w2, [0, 0]), w0, True)
 
 
-@obligation(quick=None, thorough=600, partitions_thorough=[f"pair == {p}" for p in (1, 3, 4, 6, 7)],
+@obligation(quick=None, thorough=600, partitions_thorough=[f"pair == {p}" for p in (1, 5, 4, 6, 7)],
             what="union variant: accept/reject agreement on the inputs excluded by the known HITL-flag finding",
             bounds={"class": "sub_only2(..., u1)"})
 def ob_graph2_union_accept_on_hitl_subclass(pair: int, a0: int, a1: int, u1: int, r00: bool, r01: bool, r02: bool, r03: bool,
